@@ -148,6 +148,17 @@ func ext۰reflect۰rtype۰String(fr *frame, args []value) value {
 	return args[0].(rtype).t.String()
 }
 
+func ext۰reflect۰rtype۰Name(fr *frame, args []value) value {
+	// Signature: func (t reflect.rtype) string
+	switch t := args[0].(rtype).t.(type) {
+	case *types.Named:
+		return t.Obj().Name()
+	case *types.Basic:
+		return t.Name()
+	}
+	return ""
+}
+
 func ext۰reflect۰New(fr *frame, args []value) value {
 	// Signature: func (t reflect.Type) reflect.Value
 	t := args[0].(iface).v.(rtype).t
@@ -548,6 +559,7 @@ func initReflect(i *interpreter) {
 		"Out":        newMethod(i.reflectPackage, rtypeType, "Out"),
 		"Size":       newMethod(i.reflectPackage, rtypeType, "Size"),
 		"String":     newMethod(i.reflectPackage, rtypeType, "String"),
+		"Name":       newMethod(i.reflectPackage, rtypeType, "Name"),
 		"Comparable": newMethod(i.reflectPackage, rtypeType, "Comparable"),
 	}
 	i.errorMethods = methodSet{
